@@ -68,7 +68,7 @@ Out(r) == PrintT(ToJson(r))
 Adopt(U) ==
   /\ heap' = U.heap /\ addr' = U.addr /\ handles' = U.handles /\ held' = U.held
   /\ slots' = U.slots /\ table' = U.table /\ gensym' = U.gensym /\ stale' = U.stale
-  /\ nalloc' = U.nalloc /\ arrs' = U.arrs /\ hist' = hist
+  /\ nalloc' = U.nalloc /\ arrs' = U.arrs /\ hist' = hist /\ obsq' = obsq
 
 TInit == Init /\ l = 1 /\ bad = FALSE /\ mode = "limbo"
 
